@@ -1,10 +1,20 @@
 // gofacts — lists, for the hand-written Go files of the repository (generated
 // files and tests excluded), the facts C12 and C13 rest on, as Coq data:
-//   pkg_vars     package-level variables (name, file, has initialiser)
-//   pkg_assigns  assignments / inc-dec / address-of applied to a package-level variable
-//   write_sites  every assignment, inc-dec, delete() whose target is an index,
-//                field or dereference expression: (function, target text, shape)
-//   go_stmts     `go` statements (function)
+//
+//	pkg_vars     package-level variables (name, file, kind of the initialiser / declared type:
+//	             sentinel, basic, array, struct, map, slice, func, pointer, named, none)
+//	pkg_assigns  assignments / inc-dec / address-of applied to a package-level variable
+//	pkg_uses     every other mention of a package-level variable in a function body or in a
+//	             package-level initialiser: (function, name, context) with context one of
+//	             index-read, field-read, range, len, call, method-call, other
+//	write_sites  every assignment, inc-dec, delete() whose target is an index,
+//	             field or dereference expression: (file, function, target text, shape, root)
+//	             root: receiver (the target is the receiver itself indexed / a field of it),
+//	             receiver-field (an index into something reached through fields of the receiver),
+//	             fresh-local (a local created in the same function by make / a composite literal),
+//	             local, param, pkgvar, call, other
+//	go_stmts     `go` statements (function)
+//
 // Purely syntactic (go/parser + go/ast, no type checking).
 package main
 
@@ -76,7 +86,7 @@ func main() {
 	}
 
 	pkgVars := map[string]bool{}
-	var varLines, assignLines, writeLines, goLines []string
+	var varLines, assignLines, useLines, writeLines, goLines []string
 	for _, ft := range files {
 		for _, d := range ft.f.Decls {
 			gd, ok := d.(*ast.GenDecl)
@@ -90,7 +100,11 @@ func main() {
 						continue
 					}
 					pkgVars[ft.f.Name.Name+"."+nm.Name] = true
-					varLines = append(varLines, fmt.Sprintf("(%s, %s, %v)", q(nm.Name), q(ft.name), len(vs.Values) > 0))
+					var init ast.Expr
+					if i := indexOf(vs.Names, nm); i < len(vs.Values) {
+						init = vs.Values[i]
+					}
+					varLines = append(varLines, fmt.Sprintf("(%s, %s, %s)", q(nm.Name), q(ft.name), q(varKind(vs.Type, init, text))))
 				}
 			}
 		}
@@ -119,100 +133,285 @@ func main() {
 			}
 		}
 	}
+	// scan one function body (or one package-level initialiser)
+	scan := func(pkg, file, fname string, recv, params *ast.FieldList, results *ast.FieldList, body ast.Node) {
+		local := map[string]bool{}
+		recvNames := map[string]bool{}
+		paramNames := map[string]bool{}
+		fresh := map[string]bool{}
+		addFields := func(fl *ast.FieldList, into map[string]bool) {
+			if fl == nil {
+				return
+			}
+			for _, f := range fl.List {
+				for _, n := range f.Names {
+					local[n.Name] = true
+					if into != nil {
+						into[n.Name] = true
+					}
+				}
+			}
+		}
+		addFields(recv, recvNames)
+		addFields(params, paramNames)
+		addFields(results, nil)
+		isFresh := func(e ast.Expr) bool {
+			switch x := e.(type) {
+			case *ast.CompositeLit:
+				return true
+			case *ast.UnaryExpr:
+				_, ok := x.X.(*ast.CompositeLit)
+				return ok && x.Op == token.AND
+			case *ast.CallExpr:
+				if id, ok := x.Fun.(*ast.Ident); ok && (id.Name == "make" || id.Name == "new") {
+					return true
+				}
+			}
+			return false
+		}
+		ast.Inspect(body, func(n ast.Node) bool {
+			switch x := n.(type) {
+			case *ast.AssignStmt:
+				if x.Tok == token.DEFINE {
+					for i, l := range x.Lhs {
+						if id, ok := l.(*ast.Ident); ok {
+							local[id.Name] = true
+							if len(x.Lhs) == len(x.Rhs) && isFresh(x.Rhs[i]) {
+								fresh[id.Name] = true
+							}
+						}
+					}
+				} else {
+					// a fresh local that is re-assigned is no longer known to be fresh
+					for i, l := range x.Lhs {
+						if id, ok := l.(*ast.Ident); ok && fresh[id.Name] && !(len(x.Lhs) == len(x.Rhs) && isFresh(x.Rhs[i])) {
+							fresh[id.Name] = false
+						}
+					}
+				}
+			case *ast.ValueSpec:
+				for i, n := range x.Names {
+					local[n.Name] = true
+					if i < len(x.Values) && isFresh(x.Values[i]) {
+						fresh[n.Name] = true
+					}
+				}
+			case *ast.RangeStmt:
+				if x.Tok == token.DEFINE {
+					for _, e := range []ast.Expr{x.Key, x.Value} {
+						if id, ok := e.(*ast.Ident); ok {
+							local[id.Name] = true
+						}
+					}
+				}
+			case *ast.FuncLit:
+				addFields(x.Type.Params, paramNames)
+				addFields(x.Type.Results, nil)
+			}
+			return true
+		})
+		isPkgVar := func(name string) bool { return !local[name] && pkgVars[pkg+"."+name] }
+		// the chain from the root identifier to e: only selectors / parens / stars?
+		plainChain := func(e ast.Expr) (onlyFields bool, clean bool) {
+			onlyFields, clean = true, true
+			for {
+				switch x := e.(type) {
+				case *ast.Ident:
+					return
+				case *ast.SelectorExpr:
+					e = x.X
+				case *ast.ParenExpr:
+					e = x.X
+				case *ast.StarExpr:
+					e = x.X
+				case *ast.IndexExpr:
+					onlyFields = false
+					e = x.X
+				case *ast.SliceExpr:
+					onlyFields = false
+					e = x.X
+				default:
+					return false, false
+				}
+			}
+		}
+		rootKind := func(e ast.Expr) string {
+			r := rootIdent(e)
+			if strings.HasPrefix(r, "call:") {
+				return "call"
+			}
+			if r == "?" {
+				return "other"
+			}
+			var inner ast.Expr
+			switch x := e.(type) {
+			case *ast.IndexExpr:
+				inner = x.X
+			case *ast.SelectorExpr:
+				inner = x.X
+			case *ast.StarExpr:
+				inner = x.X
+			default:
+				inner = e
+			}
+			onlyFields, clean := plainChain(inner)
+			if !clean {
+				return "other"
+			}
+			switch {
+			case isPkgVar(r):
+				return "pkgvar"
+			case recvNames[r]:
+				if _, isIndex := e.(*ast.IndexExpr); isIndex {
+					if id, ok := inner.(*ast.Ident); ok && id.Name == r {
+						return "receiver"
+					}
+					if onlyFields {
+						return "receiver-field"
+					}
+					return "other"
+				}
+				if onlyFields {
+					return "receiver"
+				}
+				return "other"
+			case fresh[r]:
+				return "fresh-local"
+			case paramNames[r]:
+				return "param"
+			case local[r]:
+				return "local"
+			}
+			return "other"
+		}
+		target := func(e ast.Expr, how string) {
+			r := rootIdent(e)
+			if isPkgVar(r) {
+				assignLines = append(assignLines, fmt.Sprintf("(%s, %s, %s)", q(fname), q(text(e)), q(how)))
+			}
+			shape := ""
+			switch e.(type) {
+			case *ast.IndexExpr:
+				shape = "index"
+			case *ast.SelectorExpr:
+				shape = "field"
+			case *ast.StarExpr:
+				shape = "deref"
+			}
+			if shape != "" {
+				writeLines = append(writeLines, fmt.Sprintf("(%s, %s, %s, %s, %s)", q(file), q(fname), q(text(e)), q(shape), q(rootKind(e))))
+			}
+		}
+		// uses of package-level variables, with their syntactic context
+		var stack []ast.Node
+		ast.Inspect(body, func(n ast.Node) bool {
+			if n == nil {
+				stack = stack[:len(stack)-1]
+				return true
+			}
+			var parent ast.Node
+			if len(stack) > 0 {
+				parent = stack[len(stack)-1]
+			}
+			stack = append(stack, n)
+			switch x := n.(type) {
+			case *ast.AssignStmt:
+				if x.Tok != token.DEFINE {
+					for _, l := range x.Lhs {
+						target(l, "assign")
+					}
+				}
+			case *ast.IncDecStmt:
+				target(x.X, "incdec")
+			case *ast.UnaryExpr:
+				if x.Op == token.AND {
+					if r := rootIdent(x.X); isPkgVar(r) {
+						assignLines = append(assignLines, fmt.Sprintf("(%s, %s, %s)", q(fname), q(text(x.X)), q("address-of")))
+					}
+				}
+			case *ast.CallExpr:
+				if id, ok := x.Fun.(*ast.Ident); ok && (id.Name == "delete" || id.Name == "clear" || id.Name == "copy") && len(x.Args) > 0 {
+					writeLines = append(writeLines, fmt.Sprintf("(%s, %s, %s, %s, %s)", q(file), q(fname), q(text(x.Args[0])), q(id.Name), q(rootKind(x.Args[0]))))
+				}
+			case *ast.GoStmt:
+				goLines = append(goLines, fmt.Sprintf("(%s, %s)", q(fname), q(text(x.Call.Fun))))
+			case *ast.Ident:
+				if !isPkgVar(x.Name) {
+					break
+				}
+				ctx := "other"
+				switch p := parent.(type) {
+				case *ast.SelectorExpr:
+					if p.Sel == x {
+						ctx = "" // a field or method name, not a variable
+					} else {
+						ctx = "field-read"
+						if len(stack) >= 3 {
+							if c, ok := stack[len(stack)-3].(*ast.CallExpr); ok && c.Fun == ast.Expr(p) {
+								ctx = "method-call"
+							}
+						}
+					}
+				case *ast.IndexExpr:
+					if p.X == ast.Expr(x) {
+						ctx = "index-read"
+					}
+				case *ast.RangeStmt:
+					if p.X == ast.Expr(x) {
+						ctx = "range"
+					}
+				case *ast.CallExpr:
+					if p.Fun == ast.Expr(x) {
+						ctx = "call"
+					} else if id, ok := p.Fun.(*ast.Ident); ok && (id.Name == "len" || id.Name == "cap") {
+						ctx = "len"
+					}
+				case *ast.KeyValueExpr:
+					if p.Key == ast.Expr(x) && len(stack) >= 3 {
+						if cl, ok := stack[len(stack)-3].(*ast.CompositeLit); ok {
+							switch cl.Type.(type) {
+							case *ast.MapType, *ast.ArrayType:
+							default:
+								ctx = "" // a field name of a struct literal
+							}
+						}
+					}
+				}
+				if ctx != "" {
+					useLines = append(useLines, fmt.Sprintf("(%s, %s, %s)", q(fname), q(x.Name), q(ctx)))
+				}
+			}
+			return true
+		})
+	}
 	for _, ft := range files {
 		pkg := ft.f.Name.Name
 		for _, d := range ft.f.Decls {
-			fd, ok := d.(*ast.FuncDecl)
-			if !ok || fd.Body == nil {
-				continue
-			}
-			fname := fd.Name.Name
-			if fd.Recv != nil && len(fd.Recv.List) > 0 {
-				fname = text(fd.Recv.List[0].Type) + "." + fname
-			}
-			fname = ft.name + ":" + fname
-			// names declared locally (params, receiver, :=, var) shadow package-level ones
-			local := map[string]bool{}
-			addFields := func(fl *ast.FieldList) {
-				if fl == nil {
-					return
+			switch x := d.(type) {
+			case *ast.FuncDecl:
+				if x.Body == nil {
+					continue
 				}
-				for _, f := range fl.List {
-					for _, n := range f.Names {
-						local[n.Name] = true
-					}
+				fname := x.Name.Name
+				if x.Recv != nil && len(x.Recv.List) > 0 {
+					fname = text(x.Recv.List[0].Type) + "." + fname
 				}
-			}
-			addFields(fd.Recv)
-			addFields(fd.Type.Params)
-			addFields(fd.Type.Results)
-			ast.Inspect(fd.Body, func(n ast.Node) bool {
-				switch x := n.(type) {
-				case *ast.AssignStmt:
-					if x.Tok == token.DEFINE {
-						for _, l := range x.Lhs {
-							if id, ok := l.(*ast.Ident); ok {
-								local[id.Name] = true
-							}
+				scan(pkg, ft.name, ft.name+":"+fname, x.Recv, x.Type.Params, x.Type.Results, x.Body)
+			case *ast.GenDecl:
+				if x.Tok != token.VAR {
+					continue
+				}
+				for _, s := range x.Specs {
+					vs := s.(*ast.ValueSpec)
+					for i, v := range vs.Values {
+						name := "_"
+						if i < len(vs.Names) {
+							name = vs.Names[i].Name
 						}
+						scan(pkg, ft.name, ft.name+":var "+name, nil, nil, nil, v)
 					}
-				case *ast.ValueSpec:
-					for _, n := range x.Names {
-						local[n.Name] = true
-					}
-				case *ast.RangeStmt:
-					if x.Tok == token.DEFINE {
-						for _, e := range []ast.Expr{x.Key, x.Value} {
-							if id, ok := e.(*ast.Ident); ok {
-								local[id.Name] = true
-							}
-						}
-					}
-				case *ast.FuncLit:
-					addFields(x.Type.Params)
-				}
-				return true
-			})
-			isPkgVar := func(name string) bool { return !local[name] && pkgVars[pkg+"."+name] }
-			target := func(e ast.Expr, how string) {
-				r := rootIdent(e)
-				if isPkgVar(r) {
-					assignLines = append(assignLines, fmt.Sprintf("(%s, %s, %s)", q(fname), q(text(e)), q(how)))
-				}
-				switch e.(type) {
-				case *ast.IndexExpr:
-					writeLines = append(writeLines, fmt.Sprintf("(%s, %s, %s)", q(fname), q(text(e)), q("index")))
-				case *ast.SelectorExpr:
-					writeLines = append(writeLines, fmt.Sprintf("(%s, %s, %s)", q(fname), q(text(e)), q("field")))
-				case *ast.StarExpr:
-					writeLines = append(writeLines, fmt.Sprintf("(%s, %s, %s)", q(fname), q(text(e)), q("deref")))
 				}
 			}
-			ast.Inspect(fd.Body, func(n ast.Node) bool {
-				switch x := n.(type) {
-				case *ast.AssignStmt:
-					if x.Tok != token.DEFINE {
-						for _, l := range x.Lhs {
-							target(l, "assign")
-						}
-					}
-				case *ast.IncDecStmt:
-					target(x.X, "incdec")
-				case *ast.UnaryExpr:
-					if x.Op == token.AND {
-						if r := rootIdent(x.X); isPkgVar(r) {
-							assignLines = append(assignLines, fmt.Sprintf("(%s, %s, %s)", q(fname), q(text(x.X)), q("address-of")))
-						}
-					}
-				case *ast.CallExpr:
-					if id, ok := x.Fun.(*ast.Ident); ok && (id.Name == "delete" || id.Name == "clear" || id.Name == "copy") && len(x.Args) > 0 {
-						writeLines = append(writeLines, fmt.Sprintf("(%s, %s, %s)", q(fname), q(text(x.Args[0])), q(id.Name)))
-					}
-				case *ast.GoStmt:
-					goLines = append(goLines, fmt.Sprintf("(%s, %s)", q(fname), q(text(x.Call.Fun))))
-				}
-				return true
-			})
 		}
 	}
 	fmt.Println("(* GENERATED by tools/gofacts from the hand-written Go files of the repository. Do not edit: regenerated on every check. *)")
@@ -223,9 +422,10 @@ func main() {
 		names = append(names, q(ft.name))
 	}
 	fmt.Printf("Definition hand_written_files : list string := [\n  %s].\n", strings.Join(names, ";\n  "))
-	fmt.Printf("Definition pkg_vars : list (string * string * bool) := [\n  %s].\n", strings.Join(varLines, ";\n  "))
+	fmt.Printf("Definition pkg_vars : list (string * string * string) := [\n  %s].\n", strings.Join(varLines, ";\n  "))
 	fmt.Printf("Definition pkg_assigns : list (string * string * string) := [\n  %s].\n", strings.Join(assignLines, ";\n  "))
-	fmt.Printf("Definition write_sites : list (string * string * string) := [\n  %s].\n", strings.Join(writeLines, ";\n  "))
+	fmt.Printf("Definition pkg_uses : list (string * string * string) := [\n  %s].\n", strings.Join(useLines, ";\n  "))
+	fmt.Printf("Definition write_sites : list (string * string * string * string * string) := [\n  %s].\n", strings.Join(writeLines, ";\n  "))
 	fmt.Printf("Definition go_stmts : list (string * string) := [\n  %s].\n", strings.Join(goLines, ";\n  "))
 	// methods named like the ten operators, by receiver type (which typed Operation overrides what)
 	var methLines []string
@@ -240,4 +440,80 @@ func main() {
 		}
 	}
 	fmt.Printf("Definition op_methods : list (string * string) := [\n  %s].\n", strings.Join(methLines, ";\n  "))
+}
+
+func indexOf(names []*ast.Ident, n *ast.Ident) int {
+	for i, x := range names {
+		if x == n {
+			return i
+		}
+	}
+	return len(names)
+}
+
+func typeKind(t ast.Expr) string {
+	switch x := t.(type) {
+	case *ast.ArrayType:
+		if x.Len != nil {
+			return "array"
+		}
+		return "slice"
+	case *ast.StructType:
+		return "struct"
+	case *ast.MapType:
+		return "map"
+	case *ast.FuncType:
+		return "func"
+	case *ast.StarExpr:
+		return "pointer"
+	case *ast.ChanType:
+		return "chan"
+	case *ast.InterfaceType:
+		return "interface"
+	case *ast.Ident:
+		switch x.Name {
+		case "bool", "string", "int", "int8", "int16", "int32", "int64", "uint", "uint8", "uint16", "uint32", "uint64", "uintptr",
+			"float32", "float64", "complex64", "complex128", "byte", "rune":
+			return "basic"
+		}
+		return "named"
+	}
+	return "named"
+}
+
+// varKind classifies a package-level variable by its declared type or, without one, by the
+// shape of its initialiser.
+func varKind(t ast.Expr, init ast.Expr, text func(ast.Node) string) string {
+	if t != nil {
+		return typeKind(t)
+	}
+	switch x := init.(type) {
+	case nil:
+		return "none"
+	case *ast.BasicLit:
+		return "basic"
+	case *ast.CompositeLit:
+		if x.Type == nil {
+			return "named"
+		}
+		return typeKind(x.Type)
+	case *ast.FuncLit:
+		return "func"
+	case *ast.UnaryExpr:
+		if x.Op == token.AND {
+			return "pointer"
+		}
+		return "basic"
+	case *ast.CallExpr:
+		switch text(x.Fun) {
+		case "errors.New", "fmt.Errorf":
+			return "sentinel"
+		}
+		return "named"
+	case *ast.Ident:
+		if x.Name == "true" || x.Name == "false" {
+			return "basic"
+		}
+	}
+	return "named"
 }
